@@ -52,6 +52,8 @@ def instances(tier, seed):
         all3 = [list(h) for h in itertools.product(OPS, OPS, OPS)]
         rng.shuffle(all3)
         hist += all3[:400]
+    # queries through an OLD solution object after an edit; the public ocp.transcribe() (explicit histories, not part of the product)
+    hist += [['SOLVE', 'T0', 'QOLD'], ['SOLVE', 'ST', 'QOLD'], ['SOLVE', 'T', 'QOLD', 'SOLVE'], ['SOLVE', 'M', 'QOLD'], ['TF', 'TR', 'ST'], ['TR', 'T0'], ['T0F', 'TR', 'AO', 'TR']]
     # edits made on a SUB-STAGE of a multi-stage OCP after a transcription
     for si in (0, 1):
         for op in ('ST', 'AO', 'T', 'CC'):
@@ -78,6 +80,12 @@ def instances(tier, seed):
             sp.cons = list(sp.cons) + [Con('<=', X(0), 5, grid='inf')]
             sp.note = 'with a grid=inf constraint'
         add(history=h, spec=sp, cfg=Cfg(method, N=2, M=M, intg=intg or 'rk', grid=hgrids[(hi // 3) % len(hgrids)], degree=2, scheme='radau'))
+    # the public ocp.transcribe() as the very FIRST transcription of an OCP with a free end time: the declaration stays as written
+    for mi, (method, intg, M) in enumerate(meths):
+        sp = base_spec()
+        sp.T = ('free', Fr(3, 2))
+        for h in (['TR'], ['TR', 'ST'], ['TR', 'Q_sample', 'TR']):
+            add(history=h, spec=sp, cfg=Cfg(method, N=2, M=M, intg=intg or 'rk', grid=fam.G_UNI, degree=2, scheme='radau'), no_initial=True)
     return items
 
 
@@ -93,9 +101,19 @@ def apply_op(op, b, spec, cfg, state):
         ocp.jacobian()
     elif op == 'SOLVE':
         try:
-            ocp.solve_limited()
+            state['sol'] = ocp.solve_limited()
         except Exception:
             pass
+    elif op == 'QOLD':
+        # queries through a solution object obtained BEFORE the latest edits: they may answer or refuse, they must not disturb the next solve
+        for q in (lambda s_: s_.value(ocp.t0), lambda s_: s_.value(ocp.T), lambda s_: s_.sample(ocp.x, grid='control')):
+            try:
+                if state.get('sol') is not None:
+                    q(state['sol'])
+            except Exception:
+                pass
+    elif op == 'TR':
+        ocp.transcribe()         # the public explicit transcription
     elif op == 'SV':
         v = Fr(5 + n, 2)
         ocp.set_value(b.psym['a'], float(v))
@@ -248,8 +266,22 @@ def run_multistage(item):
     except RockitRaised as e:
         rejected = str(e)
     if rejected:
-        return {'stats': {}, 'obligations': 1, 'discharged': 1, 'nontrivial': [], 'rejected': rejected, 'shape': 'multistage %s stage%d' % (ops, si),
+        # the edits were accepted and only the next transcription raises: accepted only if the freshly written OCP raises as well
+        try:
+            with quiet():
+                mf_ = c12.build(final)
+                mf_.ocp.solver('ipopt')
+            Inst(None, None, seed=item.get('seed', 0), built=mf_, solver=False)
+            fresh_ok = True
+        except Exception:
+            fresh_ok = False
+        res_ = {'stats': {}, 'obligations': 1, 'discharged': 0 if fresh_ok else 1, 'nontrivial': [], 'rejected': rejected, 'shape': 'multistage %s stage%d' % (ops, si),
                 'sample': {'history': ['transcribe'] + ['stage%d.%s' % (si, o) for o in ops], 'outcome': 'rejected', 'why': rejected}}
+        if fresh_ok:
+            res_['status'] = 'violation'
+            res_['violations'] = [{'property': PROP, 'key': 'edits-accepted-then-solve-raises|substage-edit:%s' % (ops[-1] if ops else 'query'), 'label': str(ops), 'cfg': 'MS+DC', 'spec': 'two stages (c12.stage_model)',
+                                   'detail': 'the edits on sub-stage %d were accepted, the next transcription raises (%s) although a freshly written OCP with the final content transcribes' % (si, rejected)}]
+        return res_
     with quiet():
         mf = c12.build(final)
         mf.ocp.solver('ipopt')
@@ -375,8 +407,9 @@ def run(item):
     with quiet():
         b = declare(spec, cfg)
         b.ocp.solver('ipopt', dict(opts0))
-        b.ocp._transcribed          # initial transcription
         declared_before = (len(b.ocp.states), len(b.ocp.controls), sum(len(v) for v in b.ocp.variables.values()))
+        if not item.get('no_initial'):
+            b.ocp._transcribed          # initial transcription
         try:
             for op in hist:
                 spec, cfg = apply_op(op, b, spec, cfg, state)
@@ -391,6 +424,20 @@ def run(item):
         # an edit that is rejected is an accepted outcome; queries and value/guess updates must never raise
         if all(o in ('Q_sample', 'Q_value', 'Q_jac', 'SOLVE', 'SV', 'SVC', 'SI', 'SIE', 'SVP') for o in hist):
             viol.append({'property': PROP, 'key': 'query-or-update-raised', 'label': str(hist), 'detail': rejected, 'cfg': repr(cfg), 'spec': repr(spec)})
+        elif rejected.startswith('re-transcription raised'):
+            # every edit call was ACCEPTED, only the next transcription raises: a rejection of the change would have come from the edit itself.
+            # Accepted only if the final specification is itself unusable, i.e. a freshly written OCP with it raises as well
+            try:
+                with quiet():
+                    bf_ = declare(spec, cfg)
+                    bf_.ocp.solver('ipopt', dict(opts0))
+                Inst(spec, cfg, seed=item.get('seed', 0), built=bf_, solver=False)
+                fresh_ok = True
+            except Exception:
+                fresh_ok = False
+            if fresh_ok:
+                viol.append({'property': PROP, 'key': 'edits-accepted-then-solve-raises', 'label': str(hist), 'cfg': repr(cfg), 'spec': repr(spec),
+                             'detail': 'every operation of the history was accepted, the next transcription raises (%s) although a freshly written OCP with the final specification transcribes' % rejected})
         res = {'stats': {}, 'obligations': 1, 'discharged': 0 if viol else 1, 'violations': viol, 'rejected': rejected,
                'shape': 'history %s %s' % (hist, cfg.method), 'nontrivial': [],
                'sample': {'history': hist, 'outcome': 'rejected', 'why': rejected}}
